@@ -54,7 +54,9 @@ def flag(ctx, args, kwargs):
 
 
 def finalize_fn(ctx, args, kwargs):
-    """the command's user finalizer: assumed not to raise"""
+    """the command's user finalizer (user code): may raise"""
+    if ctx.choose(2, "user finalizer outcome") == 1:
+        ctx.raise_("Exception", "finalize callback raised")
     return ctx.none()
 
 
@@ -111,7 +113,11 @@ def mods(extra_obj):
 
 
 finalize = Contract(
-    target=CM + "_finalize_command", types=TYPES, calls=CALLS, options=OPTS, raises={},
+    target=CM + "_finalize_command", types=TYPES, calls=CALLS, options=OPTS, raises={"Exception": None},
+    exc_ensures={"Exception": [("the-instance-is-disposed-even-when-the-finalizer-raises", f"not has_key({INST}, cmd_request.name)"),
+                               ("the-request-is-marked-done-even-when-the-finalizer-raises", f"implies(cmd_request in self.cmd_executing, cmd_request in {DONE})"),
+                               ("instances-stay-keyed-by-their-name", REP), ("only-this-request-is-marked-done", ONLY_THIS),
+                               ("done-marks-are-kept", KEPT_DONE), ("request-untouched", "cmd_request.name == old(cmd_request.name)")]},
     requires=[REP, f"has_key({INST}, cmd.name) and {INST}[cmd.name] is cmd", "cmd.name == cmd_request.name", "cmd_request.name.strip() != ''"],
     ensures=[("the-instance-is-disposed", f"not has_key({INST}, cmd_request.name)"),
              ("the-request-is-marked-done-if-it-was-executing", f"implies(cmd_request in self.cmd_executing, cmd_request in {DONE})"),
@@ -240,7 +246,7 @@ CONTRACTS = [finalize, cancel, execute, cancel_all]
 TARGETS = [c.key for c in CONTRACTS]
 BOUNDED = []
 TRUSTED = ["ASSUMED (not proved): the two scans at the top of _execute_uod_command that cancel identical / overlapping commands keep uod.command_instances keyed by name and do not retire the current request",
-           "UodCommandBuilder.build yields a command named like its factory key and bound to the uod", "tracking bookkeeping, command.cancel() and the user finalizer do not raise; "
+           "UodCommandBuilder.build yields a command named like its factory key and bound to the uod", "tracking bookkeeping and command.cancel() do not raise; user finalizers, "
            "uod initialize/execute callbacks may raise anything", "uod.command_instances maps each name to the instance carrying that name (representation invariant, assumed at entry)",
            "Stop / Restart reach cancel_commands(finalize=True) (internal_commands_impl generators, not under this contract)"]
 CLAUSES = {"no UOD command is still executing or holding an instance when Stop or Restart completes": "(a)-(c): an instance is released whenever its request is retired, and cancel+finalize releases it; cancel_commands is under contract (every executing request except the requesting command is cancelled with the given finalize flag: loop invariant, all lengths); the Stop/Restart generators only through the gating variants",
@@ -250,6 +256,9 @@ EXPLANATION = "Partial claim: instance-release postconditions on the command man
 
 def replay(obligation, witness):
     import contracts.c10_native as n
+    if "finalizer-raises" in obligation:
+        r = n.raising_finalizer_leaves_no_instance_behind()
+        return {"confirmed": bool(r["violated"]), **r}
     if "_cancel_command" in obligation:
         r = n.command_and_stop_in_the_same_tick() if "not-started-yet" in obligation else n.user_started_command_then_stop()
         return {"confirmed": bool(r["violated"]), **r}
@@ -284,7 +293,13 @@ def _nat4():
     return {"ok": not r["violated"], "observation": r}
 
 
-NATIVE = [("native:command-and-stop-requested-in-the-same-tick-leaves-no-instance", _nat4), ("native:user-started-command-then-stop-leaves-no-instance", _nat3), ("native:invalid-arguments-then-stop-leaves-no-instance", _nat), ("native:stop-at-any-tick-of-back-to-back-commands-leaves-no-instance", _nat2)]
+def _nat5():
+    import contracts.c10_native as n
+    r = n.raising_finalizer_leaves_no_instance_behind()
+    return {"ok": not r["violated"], "observation": r}
+
+
+NATIVE = [("native:raising-finalizer-leaves-no-instance", _nat5), ("native:command-and-stop-requested-in-the-same-tick-leaves-no-instance", _nat4), ("native:user-started-command-then-stop-leaves-no-instance", _nat3), ("native:invalid-arguments-then-stop-leaves-no-instance", _nat), ("native:stop-at-any-tick-of-back-to-back-commands-leaves-no-instance", _nat2)]
 BOUNDED = ["one native scenario on the real engine (command with rejected arguments, then Stop): bounded, not counted"]
 
 
